@@ -78,6 +78,16 @@ CORPUS = [
         {'k': 'gap2d', 'src': 5}, {'k': 'flatten', 'src': 6},
         {'k': 'linear', 'src': 7, 'cin': 4, 'cout': 2, 'bias': True})},
         'style': 'dyadic', 'single': True, 'names': ['params'], 'full_cost': True, 'exclude': []}),
+    # rectangular output maps (20x12 and 10x6), a non-square kernel: metrics that distinguish rows from columns
+    ('rectangular-output-map', {'spec': {'dim': 2, 'input_shape': [2, 20, 12], 'out': [7], 'productions': ['corpus'], 'nodes': _n(
+        {'k': 'in', 'shape': [2, 20, 12]},
+        {'k': 'conv2d', 'src': 0, 'cin': 2, 'cout': 5, 'ks': [3, 1], 'dil': 1, 'stride': 1, 'groups': 1, 'bias': True, 'padding': 'same'},
+        {'k': 'relu', 'src': 1},
+        {'k': 'conv2d', 'src': 2, 'cin': 5, 'cout': 5, 'ks': [3, 3], 'dil': 1, 'stride': 1, 'groups': 5, 'bias': False, 'padding': 1},
+        {'k': 'conv2d', 'src': 3, 'cin': 5, 'cout': 3, 'ks': [3, 3], 'dil': 1, 'stride': 2, 'groups': 1, 'bias': True, 'padding': 1},
+        {'k': 'gap2d', 'src': 4}, {'k': 'flatten', 'src': 5},
+        {'k': 'linear', 'src': 6, 'cin': 3, 'cout': 2, 'bias': True})},
+        'style': 'one-dead', 'single': False, 'full_cost': True, 'exclude': []}),
 ]
 
 
@@ -153,6 +163,14 @@ def oracle(o):
     deg = degenerate_layers(o)
     if o['discrete_flag_after_init'] != o['discrete_at_init']:
         out.append(('discrete_cost-flag-not-kept', 'constructed with discrete_cost=%s, property reads %s' % (o['discrete_at_init'], o['discrete_flag_after_init'])))
+    # the metric itself: the specification's functions on a plain network (original and exported) against an
+    # independent integer reference of the five metrics
+    for n in o['exp_ref']:
+        for what, got, ref in (('original', o['orig_plain'][n], o['orig_ref'][n]), ('exported', o['exp_plain'][n], o['exp_ref'][n])):
+            if got != ref:
+                out.append(('metric-differs-from-reference:%s' % n, '%s on the %s network computed by the cost specification = %r, reference value %r (output maps: %s)'
+                            % (n, what, got, ref, sorted({tuple(st[2:]) for L in o.get('layers', []) for st in L['sites'] if L['kind'] == 'conv2d'}))))
+                break
     for n in names:
         orig = o['orig_plain'][n]
         if o['open']['disc'][n] != orig:
@@ -214,7 +232,7 @@ def _replay_dict(o):
     r = {'case': {'seed': o['seed'], 'opts': dict(o.get('opts') or {})}, 'arch': o.get('arch')}
     if 'spec' in (o.get('opts_full') or {}):
         r['case']['opts']['spec'] = o['opts_full']['spec']
-    for k in ('names', 'single', 'full_cost', 'style', 'exclude', 'open', 'pruned', 'respec', 'rewrap', 'rewrap_exc', 'dw_pruned', 'switches', 'orig_plain', 'exp_plain', 'exp_plain_generic', 'degenerate', 'exp_numel', 'reimport', 'trace'):
+    for k in ('names', 'single', 'full_cost', 'style', 'exclude', 'open', 'pruned', 'respec', 'rewrap', 'rewrap_exc', 'dw_pruned', 'switches', 'orig_plain', 'exp_plain', 'exp_ref', 'orig_ref', 'exp_plain_generic', 'degenerate', 'exp_numel', 'reimport', 'trace'):
         if k in o:
             r[k] = o[k]
     r['layers'] = [{k: L.get(k) for k in ('name', 'kind', 'cin', 'cout', 'groups', 'ks', 'search', 'summary', 'sites')} for L in o.get('layers', [])]
@@ -282,6 +300,12 @@ def run(ctx):
         if any(L['kind'] == 'conv1d' and L.get('summary') and L['summary']['kernel_size'] != L['ks'] for L in o.get('layers', [])) and \
                 any(x.split(':', 1)[1] in ('train_net_only', 'train_rf=train_dilation=False') for x in o.get('switches', [])[:1]):
             ctx.dist['conv1d-kernel-pruned-then-time-masks-untrainable-before-cost'] += 1
+        if o.get('dim') == 2:
+            shp = o['spec']['input_shape']
+            ctx.dist['2d-input:%s' % ('square' if shp[1] == shp[2] else 'rectangular')] += 1
+            cd = lambda a, n: (a + n - 1) // n
+            if any(L['kind'] == 'conv2d' and L['groups'] == 1 and any(cd(st[2], 2) * cd(st[3], 8) != cd(st[3], 2) * cd(st[2], 8) for st in L['sites']) for L in o.get('layers', [])):
+                ctx.dist['2d:regular-conv-with-axis-sensitive-gap8-iterations'] += 1
         if o.get('dw_pruned'):
             ctx.dist['depthwise-layer-with-pruned-channels:%dd' % o['dim']] += 1
         if 'rewrap' in o:
